@@ -112,8 +112,9 @@ def runPrepareCase (c : Json) : PrepOut := Id.run do
     if real == "accepted" then
       return { verdict := "diff", detail := Json.mkObj [("what", "verdict"), ("impl", "accepted"), ("model", "rejected:" ++ mcls)] }
     else if real == "panic" then
-      if mcls == "panic" then return { verdict := "ok", detail := Json.mkObj [("both", "panic")] }
-      else return { verdict := "diff", detail := Json.mkObj [("what", "verdict"), ("impl", "panic"), ("model", "rejected:" ++ mcls)] }
+      -- the model has no panic outcome: a panic of the real code is always a disagreement
+      return { verdict := "diff", detail := Json.mkObj [("what", "verdict"), ("impl", "panic"), ("model", "rejected:" ++ mcls),
+        ("panic", getStr c "err")] }
     else if mcls == realCls then return { verdict := "ok", detail := Json.mkObj [("both", "rejected:" ++ mcls)] }
     else if outsideModel realCls then
       -- the type check of the real code runs before the point where the model rejects
